@@ -266,6 +266,20 @@ theorem parseIntGuards_tie (n n1 c v base maxVal : Int) :
   simp only [Generated.C05_Decisions.parseIntOverflowGuard]
   rw [Bool.eq_iff_iff]; simp
 
+/-! ### the six ToIntN conversions (runtime.go) -/
+
+theorem toIntN_tie (v : Num) :
+    Generated.C05_Decisions.toInt8 v = toIntS 8 v ∧ Generated.C05_Decisions.toInt16 v = toIntS 16 v ∧
+    Generated.C05_Decisions.toInt32 v = toIntS 32 v ∧ Generated.C05_Decisions.toUint8 v = toIntU 8 v ∧
+    Generated.C05_Decisions.toUint16 v = toIntU 16 v ∧ Generated.C05_Decisions.toUint32 v = toIntU 32 v := by
+  cases v with
+  | int i => exact ⟨rfl, rfl, rfl, rfl, rfl, rfl⟩
+  | flt f =>
+    simp only [Generated.C05_Decisions.toInt8, Generated.C05_Decisions.toInt16, Generated.C05_Decisions.toInt32,
+      Generated.C05_Decisions.toUint8, Generated.C05_Decisions.toUint16, Generated.C05_Decisions.toUint32,
+      toIntS, toIntU, isNaN, isInfS]
+    simp
+
 /-! ### identity operations: `SameAs`, `StrictEquals`, `hash`, key normalisation (value.go, map.go, builtin_array.go) -/
 
 theorem beq_int_decide (i j : Int) : (i == j) = decide (i = j) := by
